@@ -382,7 +382,9 @@ class MailboxData(MailboxDataInterface[Message]):
 
     async def claim_recent(self, selected: SelectedMailbox) -> None:
         async with self.messages_lock.write_lock():
-            keys = self._maildir.claim_new()
+            # claim_new() is a generator, testing "in" against it directly
+            # would use it up on the first key that is not new
+            keys = frozenset(self._maildir.claim_new())
         async with UidList.with_read(self._path) as uidl:
             for rec in uidl.records:
                 if rec.key in keys:
